@@ -142,6 +142,24 @@ CLAIMED = {
         "returned head/manifest loads to the state at publication. Tied by per-write closure monitors and store-trace correspondence; "
         "the effect order inside Append (block write before publication) is also what the model's step encodes.",
    technique="Coq proof (store-order invariant over histories) + per-write closure monitor and differential correspondence vs Go", design="6/C17"),
+ "C15": dict(
+   text="Theorems (Props/C15.v): for every reachable log and option combination the iterator never panics, closes the channel on every "
+        "success (also amount 0), reports unknown upper bounds as errors; for the hash-tiebreak ordering the emitted list is "
+        "iter_post(cut(R)) where R is proved to be exactly the causal past (inclusive) of the upper bounds inside the log, newest "
+        "first, each entry once - for one or several, causally related or unrelated bounds - and cut/iter_post are read off as: all "
+        "of R, its first k, R down to the lower bound (inclusive/exclusive), and the k entries nearest the lower bound. Proved via "
+        "'a bounded traversal is a prefix of the full traversal'. For the default ordering with explicit LTE/LT bounds the "
+        "functional half is covered by the correspondence harness only (partial). Tie: iterator ops inside random histories, "
+        "exact output comparison, brute-force range monitor, drained channel with watchdog.",
+   technique="Coq proof (traversal prefix lemma + causal-past characterisation) + differential correspondence vs Go", design="6/C15"),
+ "C16": dict(
+   text="Theorems (Props/C16.v): for any two replicas of any well-formed history Join never panics for any bound (difference and "
+        "traversal fuel suffice); with a bound n >= 0 and an accepted unbounded merge under a total ordering, the result holds "
+        "exactly the last min(n,total) entries of the unbounded merge's linearisation, heads = the unreferenced entries among them, "
+        "and a bound >= total keeps everything. Tie: bounded joins with bounds 0..total+3 in random histories compared with the "
+        "model and with an oracle that replays the history with the unbounded join. Known finding K3: the early return for "
+        "self/foreign-id joins skips the trimming.",
+   technique="Coq proof (bounded join over the values specification; fuel sufficiency) + replay-oracle correspondence vs Go", design="6/C16"),
 }
 NOT_YET = "machinery for this property is still being built in this round (see DESIGN.md section 10); not claimed yet"
 
